@@ -121,7 +121,9 @@ class Reporter:
             for cand in known:
                 if sig in cand.get('signatures', []) or any(
                         sig.startswith(p)
-                        for p in cand.get('signature_prefixes', [])):
+                        for p in cand.get('signature_prefixes', [])) or any(
+                        sig.endswith(p)
+                        for p in cand.get('signature_suffixes', [])):
                     k = cand
                     break
             if k is None:
